@@ -6,34 +6,24 @@
      Plate.plate_id / plate_name / __lt__ / merge
      Screen.combine
      common.select_unique_zipped_numpy_arrays, filter_dataset_to_unique_treatments (on a ScreenSubset and on a Screen)
-   Objects as in Proofs/C14Source.v: a Screen object is [pyscreen] = (identity tag, contents), a ScreenSubset / Plate a [view]. *)
+   Objects as in Proofs/C14Source.v: a Screen object is [pyscreen] = (identity tag, contents), a ScreenSubset / Plate a [view].
+
+   The links live in the pieces Proofs/C14SourceHelpers_<Piece>.v, one per translated function (or per pair stated together), so that
+   a file of another property imports the link of the one helper it calls and not the translations of all of them; this file
+   collects the pieces and states the one-line properties together, as Props/C14.v does. *)
 From Coq Require Import ZArith List Bool Arith Lia ZifyBool.
 From Batchie Require Import Lib.Sexp Lib.PyRt Generated.Consts Model.Encode Model.Screen Model.Views
   Generated.SrcEncode Generated.SrcViews Generated.SrcPlates
-  Proofs.PyRtLemmas Proofs.C01Sort Proofs.C01Source Proofs.C14Defs Proofs.C14Lists Proofs.C14Unique Proofs.C14Source.
+  Proofs.PyRtLemmas Proofs.C01Sort Proofs.C14Defs Proofs.C14Lists Proofs.C14Unique.
+From Batchie Require Export Proofs.C14SourceHelpers_Base Proofs.C14SourceHelpers_ScreenObserved Proofs.C14SourceHelpers_ScreenNPlates
+  Proofs.C14SourceHelpers_ScreenSamples Proofs.C14SourceHelpers_ScreenTreatments Proofs.C14SourceHelpers_ScreenArity
+  Proofs.C14SourceHelpers_ViewUniquePlateIds Proofs.C14SourceHelpers_ViewObserved Proofs.C14SourceHelpers_ViewNPlates
+  Proofs.C14SourceHelpers_ViewUniqueSamples Proofs.C14SourceHelpers_ViewNUniqueSamples Proofs.C14SourceHelpers_ViewTreatments
+  Proofs.C14SourceHelpers_ViewArity Proofs.C14SourceHelpers_PlateId Proofs.C14SourceHelpers_PlateName
+  Proofs.C14SourceHelpers_PlateLt Proofs.C14SourceHelpers_PlateMerge Proofs.C14SourceHelpers_ScreenCombine
+  Proofs.C14SourceHelpers_SelectUnique Proofs.C14SourceHelpers_FilterView Proofs.C14SourceHelpers_FilterScreen.
 Import ListNotations.
 Open Scope Z_scope.
-
-(* ---------------- small facts ---------------- *)
-Lemma forallb_map {A B} (f : A -> B) (p : B -> bool) l : forallb p (map f l) = forallb (fun x => p (f x)) l.
-Proof. induction l as [|a l IH]; cbn [map forallb]; [reflexivity | now rewrite IH]. Qed.
-
-Lemma forallb_eq {A} (p q : A -> bool) l : (forall x, p x = q x) -> forallb p l = forallb q l.
-Proof. intros H. induction l as [|a l IH]; cbn [forallb]; [reflexivity | now rewrite H, IH]. Qed.
-
-Lemma list_get_0 {A} (l : list A) : list_get l 0 = match l with x :: _ => Ok x | [] => Err 98 end.
-Proof. destruct l; reflexivity. Qed.
-
-(* np.setdiff1d(np.unique(a), [SENTINEL]) is the sorted distinct entries without the sentinel *)
-Lemma setdiff_sentinel (l : list Z) :
-  np_setdiff1d (sort_uniq Z.compare l) [CONTROL_SENTINEL_VALUE]
-  = filter (fun x => negb (x =? CONTROL_SENTINEL_VALUE)) (sort_uniq Z.compare l).
-Proof.
-  unfold np_setdiff1d.
-  rewrite (sort_uniq_of_sorted Z.compare Zcmp_spec)
-    by (apply (SSorted_filter Z.compare); apply (sort_uniq_sorted Z.compare Zcmp_spec)).
-  apply filter_ext. intros x. cbn [existsb]. now rewrite orb_false_r.
-Qed.
 
 (* ---------------- the one-line properties of ScreenBase, on a Screen object ---------------- *)
 Theorem src_screen_props_are_model : forall s : pyscreen,
@@ -46,12 +36,10 @@ Theorem src_screen_props_are_model : forall s : pyscreen,
   src_screen_treatment_arity s = Ok (Z.of_nat (s_arity (snd s))).
 Proof.
   intros s.
-  assert (Hu : src_screen_unique_treatments s = Ok (screen_unique_treatments (snd s))).
-  { unfold src_screen_unique_treatments, screen_unique_treatments, unique_treatments_of, np_unique2, screen_tids2. cbn [snd].
-    now rewrite setdiff_sentinel. }
-  repeat split; try reflexivity; try exact Hu.
-  - unfold src_screen_is_observed, screen_is_observed, np_all, screen_mask. now rewrite forallb_map.
-  - unfold src_screen_n_unique_treatments. now rewrite Hu.
+  exact (conj (src_screen_is_observed_is_model s) (conj (src_screen_n_plates_is_model s)
+        (conj (src_screen_unique_sample_ids_is_model s) (conj (src_screen_n_unique_samples_is_model s)
+        (conj (src_screen_unique_treatments_is_model s) (conj (src_screen_n_unique_treatments_is_model s)
+              (src_screen_treatment_arity_is_model s))))))).
 Qed.
 
 (* ---------------- ... and on a ScreenSubset / Plate object ---------------- *)
@@ -66,181 +54,8 @@ Theorem src_view_props_are_model : forall v : view,
   src_view_treatment_arity v = Ok (Z.of_nat (s_arity (v_parent v))).
 Proof.
   intros v.
-  assert (Hu : src_view_unique_treatments v = Ok (view_unique_treatments v)).
-  { unfold src_view_unique_treatments, view_unique_treatments, unique_treatments_of, np_unique2.
-    change (src_view_treatment_ids v) with (Ok (view_tids v)). cbn [res_bind snd]. now rewrite setdiff_sentinel. }
-  repeat split; try reflexivity; try exact Hu.
-  unfold src_view_n_unique_treatments. now rewrite Hu.
-Qed.
-
-(* ---------------- Plate.plate_id / plate_name / __lt__ ---------------- *)
-Theorem src_plate_id_is_model : forall v : view, src_plate_id v = view_plate_id v.
-Proof.
-  intros v. unfold src_plate_id, view_plate_id.
-  rewrite (proj1 (src_view_props_are_model v)). cbn [res_bind].
-  destruct (view_unique_pids v) as [|x [|y r]]; cbn [length]; try reflexivity.
-  replace (Z.of_nat (S (S (length r))) =? 1) with false by lia. reflexivity.
-Qed.
-
-Theorem src_plate_name_is_model : forall v : view, src_plate_name v = view_plate_name v.
-Proof.
-  intros v. unfold src_plate_name, view_plate_name, view_plate_names, view_screen. cbn [snd].
-  rewrite list_get_0. destruct (select (v_sel v) (map r_plate (s_rows (v_parent v)))); reflexivity.
-Qed.
-
-Theorem src_plate_lt_is_model : forall a b : view, src_plate_lt a b = Ok (view_lt a b).
-Proof.
-  intros a b. unfold src_plate_lt, view_lt. rewrite !src_view_size_is_model. cbn [res_bind]. f_equal.
-  destruct (Nat.ltb_spec (view_size a) (view_size b)); lia.
-Qed.
-
-(* ---------------- Plate.merge ---------------- *)
-Lemma with_plate_same r : with_plate (r_plate r) r = r.
-Proof. destruct r; reflexivity. Qed.
-
-(* the rows after `plate_names[sel] = nm`, computed through the column, are the relabelled rows *)
-Lemma relabel_column (nm : name) : forall (sel : list bool) (rows : list row),
-  map (fun p : name * row => with_plate (fst p) (snd p))
-      (combine (map (fun p : bool * name => if fst p then nm else snd p) (combine sel (map r_plate rows))) rows)
-  = relabel sel nm rows.
-Proof.
-  unfold relabel. induction sel as [|b sel IH]; intros [|r rows]; cbn [map combine]; try reflexivity.
-  rewrite IH. cbn [fst snd]. destruct b; [reflexivity | now rewrite with_plate_same].
-Qed.
-
-Lemma relabel_length sel nm rows : length sel = length rows -> length (relabel sel nm rows) = length rows.
-Proof. intros H. unfold relabel. rewrite map_length, combine_length. lia. Qed.
-
-Lemma ids_of_column_some l : ids_of_column (map Some l) = Ok l.
-Proof. unfold ids_of_column. induction l as [|x l IH]; cbn [map res_map_all]; [reflexivity | now rewrite IH]. Qed.
-
-Theorem src_plate_merge_is_model : forall self other : view, src_plate_merge self other = view_merge self other.
-Proof.
-  intros self other. unfold src_plate_merge, view_merge, same_object, view_screen. cbn [fst snd].
-  destruct (negb (v_tag other =? v_tag self)); [reflexivity|].
-  rewrite src_plate_name_is_model. unfold view_plate_name, view_plate_names, set_view_sel. cbn [v_sel v_parent v_tag].
-  set (sel := bor_vec (v_sel self) (v_sel other)). set (p := v_parent self).
-  rewrite select_map. destruct (select sel (s_rows p)) as [|r0 rest]; cbn [map res_bind]; [reflexivity|].
-  unfold mask_fill. rewrite map_length.
-  destruct (negb (Nat.eqb (length sel) (length (s_rows p)))); cbn [res_bind]; [reflexivity|].
-  unfold set_screen_plate_names, set_view_screen, with_rows_pids. cbn [fst snd s_rows s_pids v_parent v_tag v_sel].
-  rewrite relabel_column.
-  rewrite (src_encode_1d_is_model _ None I). cbn [option_map].
-  destruct (encode_names (map r_plate (relabel sel (r_plate r0) (s_rows p))) None 6) as [[ids m]|t]; cbn [res_bind fst snd];
-    [|reflexivity].
-  unfold store_plate_ids. cbn [fst snd s_rows]. rewrite ids_of_column_some. cbn [res_bind]. reflexivity.
-Qed.
-
-(* ---------------- Screen.combine ---------------- *)
-Lemma rows_of_arrays_app (r1 r2 : list row) :
-  rows_of_arrays (map (fun r => map fst (r_treats r)) r1 ++ map (fun r => map fst (r_treats r)) r2)
-                 (map (fun r => map snd (r_treats r)) r1 ++ map (fun r => map snd (r_treats r)) r2)
-                 (map r_obs r1 ++ map r_obs r2) (map r_mask r1 ++ map r_mask r2)
-                 (map r_sample r1 ++ map r_sample r2) (map r_plate r1 ++ map r_plate r2) = r1 ++ r2.
-Proof. rewrite <- !map_app. apply rows_of_arrays_rows. Qed.
-
-Theorem src_screen_combine_is_model : forall a b : pyscreen, src_screen_combine a b = screen_combine (snd a) (snd b).
-Proof.
-  intros [ta a] [tb b]. unfold src_screen_combine, screen_combine. cbn [snd negb].
-  destruct (negb (name_eqb (s_ctrl b) (s_ctrl a))); [reflexivity|].
-  unfold concat2, screen_treatment_names, screen_treatment_doses. cbn [fst snd].
-  destruct (Nat.eqb (s_arity a) (s_arity b)); cbn [negb res_bind]; [|reflexivity].
-  rewrite res_bind_ok. unfold screen_of_arrays, screen_mask. cbn [fst snd]. now rewrite rows_of_arrays_app.
-Qed.
-
-(* ---------------- common.select_unique_zipped_numpy_arrays ---------------- *)
-(* `len(set(lengths)) > 1` says that some length differs from the first *)
-Lemma distinct_count_gt1 (l : list Z) :
-  (Z.of_nat (length (sort_uniq Z.compare l)) >? 1) = negb (forallb (fun x => x =? hd 0 l) l).
-Proof.
-  destruct l as [|h l]; [reflexivity|]. cbn [hd].
-  destruct (forallb (fun x => x =? h) (h :: l)) eqn:E; cbn [negb].
-  - rewrite forallb_forall in E.
-    rewrite (sort_uniq_ext Z.compare Zcmp_spec (h :: l) [h]); [reflexivity|].
-    intros x. cbn [In]. split; [intros H; left; specialize (E x H); lia | intros [->|[]]; now left].
-  - assert (H : exists y, In y (h :: l) /\ y <> h).
-    { apply Bool.not_true_iff_false in E. rewrite forallb_forall in E.
-      destruct (existsb (fun x => negb (x =? h)) (h :: l)) eqn:X.
-      - apply existsb_exists in X. destruct X as (y & Hy & Hn). exists y. split; [exact Hy | lia].
-      - exfalso. apply E. intros x Hx. destruct (x =? h) eqn:Q; [reflexivity|]. exfalso.
-        assert (existsb (fun x => negb (x =? h)) (h :: l) = true) by (apply existsb_exists; exists x; split; [exact Hx | now rewrite Q]).
-        congruence. }
-    destruct H as (y & Hy & Hn).
-    pose proof (sort_uniq_NoDup Z.compare Zcmp_spec (h :: l)) as ND.
-    assert (Ih : In h (sort_uniq Z.compare (h :: l))) by (apply (sort_uniq_In Z.compare Zcmp_spec); now left).
-    assert (Iy : In y (sort_uniq Z.compare (h :: l))) by (now apply (sort_uniq_In Z.compare Zcmp_spec)).
-    destruct (sort_uniq Z.compare (h :: l)) as [|u [|w r]]; [destruct Ih | | cbn [length]; lia].
-    cbn [In] in Ih, Iy. exfalso. destruct Ih as [<-|[]]. destruct Iy as [<-|[]]. now apply Hn.
-Qed.
-
-Lemma zip_cols_length cols : length (zip_cols cols) = length (hd [] cols).
-Proof. unfold zip_cols. now rewrite map_length, seq_length. Qed.
-
-Lemma first_indices_in_range keys :
-  forallb (fun i => Nat.ltb i (length keys)) (map (fun k => first_index k keys) (sort_uniq name_cmp keys)) = true.
-Proof.
-  rewrite forallb_map. apply forallb_forall. intros k Hk. apply Nat.ltb_lt. apply first_index_lt.
-  now apply (sort_uniq_In name_cmp name_cmp_spec).
-Qed.
-
-(* the translation is the model on one or more arrays; on NO array numpy's vstack raises (tag 17), where the model - never
-   called that way: the caller always passes the sample ids - answers the empty mask *)
-Theorem src_select_unique_is_model : forall cols : list (list Z),
-  src_select_unique cols = match cols with [] => Err 17 | _ => select_unique cols end.
-Proof.
-  intros [|r rest]; [reflexivity|]. unfold src_select_unique, select_unique.
-  rewrite distinct_count_gt1.
-  replace (forallb (fun x : Z => x =? hd 0 (map (fun x' : list Z => Z.of_nat (length x')) (r :: rest)))
-                   (map (fun x' : list Z => Z.of_nat (length x')) (r :: rest)))
-    with (forallb (fun c => Nat.eqb (length c) (length (hd [] (r :: rest)))) (r :: rest)).
-  2:{ rewrite forallb_map. apply forallb_eq. intros c. cbn [hd map]. apply eq_sym, of_nat_eqb. }
-  destruct (forallb (fun c => Nat.eqb (length c) (length (hd [] (r :: rest)))) (r :: rest)) eqn:E; cbn [negb]; [|reflexivity].
-  cbn [hd forallb] in E. apply andb_prop in E. destruct E as [_ E].
-  unfold np_vstack. rewrite E. cbn [res_bind].
-  unfold first_indices, unique_rows2, arr2_T. cbn [fst snd].
-  change (map (fun j => column 0 j (r :: rest)) (seq 0 (length r))) with (zip_cols (r :: rest)).
-  change (list_get (r :: rest) 0) with (Ok r). cbn [res_bind]. rewrite Nat2Z.id.
-  unfold set_true_at, unique_mask. rewrite repeat_length.
-  pose proof (zip_cols_length (r :: rest)) as HL. cbn [hd] in HL. rewrite <- HL.
-  rewrite first_indices_in_range. reflexivity.
-Qed.
-
-(* ---------------- filter_dataset_to_unique_treatments ---------------- *)
-(* the loop that appends one treatment-id column per treatment position *)
-Lemma append_columns_loop (a : nat) (tids : list (list Z)) (f : list (list Z) -> Z -> result (list (list Z))) :
-  (forall arrs i, f arrs i = dor c <- arr2_col 0 (a, tids) i; Ok (arrs ++ [c])) ->
-  forall n s arrs, (s + n <= a)%nat ->
-  res_fold f (map Z.of_nat (seq s n)) arrs = Ok (arrs ++ map (fun i => column 0 i tids) (seq s n)).
-Proof.
-  intros Hf. induction n as [|n IH]; intros s arrs Hs; cbn [seq map res_fold]; [now rewrite app_nil_r|].
-  rewrite Hf. unfold arr2_col. cbn [fst snd].
-  replace (Z.of_nat s <? 0) with false by lia.
-  replace ((0 <=? Z.of_nat s) && (Z.of_nat s <? Z.of_nat a)) with true by lia.
-  cbn [res_bind]. rewrite Nat2Z.id, IH by lia. now rewrite <- app_assoc.
-Qed.
-
-Theorem src_filter_unique_view_is_model : forall v : view, src_filter_unique_view v = filter_unique_view v.
-Proof.
-  intros v. unfold src_filter_unique_view, filter_unique_view, unique_cols.
-  change (src_view_sample_ids v) with (Ok (view_sids v)). cbn [res_bind].
-  rewrite (proj2 (proj2 (proj2 (proj2 (proj2 (proj2 (proj2 (src_view_props_are_model v)))))))). cbn [res_bind].
-  unfold zrange. rewrite Nat2Z.id.
-  rewrite (append_columns_loop (s_arity (v_parent v)) (view_tids v)) by (reflexivity || lia). cbn [res_bind app].
-  rewrite src_select_unique_is_model.
-  destruct (select_unique (view_sids v :: map (fun i => column 0 i (view_tids v)) (seq 0 (s_arity (v_parent v))))) as [m|t];
-    cbn [res_bind]; [|reflexivity].
-  rewrite src_view_subset_is_model, res_bind_ok. reflexivity.
-Qed.
-
-Theorem src_filter_unique_screen_is_model : forall s : pyscreen,
-  src_filter_unique_screen s = filter_unique_screen (fst s) (snd s).
-Proof.
-  intros s. unfold src_filter_unique_screen, filter_unique_screen, unique_cols.
-  rewrite (proj2 (proj2 (proj2 (proj2 (proj2 (proj2 (src_screen_props_are_model s))))))). cbn [res_bind].
-  unfold zrange. rewrite Nat2Z.id.
-  rewrite (append_columns_loop (s_arity (snd s)) (s_tids (snd s))) by (reflexivity || lia). cbn [res_bind app].
-  rewrite src_select_unique_is_model.
-  destruct (select_unique (s_sids (snd s) :: map (fun i => column 0 i (s_tids (snd s))) (seq 0 (s_arity (snd s))))) as [m|t];
-    cbn [res_bind]; [|reflexivity].
-  rewrite src_screen_subset_is_model, res_bind_ok. reflexivity.
+  exact (conj (src_view_unique_plate_ids_is_model v) (conj (src_view_is_observed_is_model v)
+        (conj (src_view_n_plates_is_model v) (conj (src_view_unique_sample_ids_is_model v)
+        (conj (src_view_n_unique_samples_is_model v) (conj (src_view_unique_treatments_is_model v)
+        (conj (src_view_n_unique_treatments_is_model v) (src_view_treatment_arity_is_model v)))))))).
 Qed.
